@@ -244,6 +244,11 @@ static void prop_cycle_block(Tape &t, Ctx &c) {
     // argument for positivity / contraction does not apply.  Region: emin, >= 2 levels, non-commuting block values
     // (families reblocked, blocklap); linearity, history independence and scaling are asserted inside it.
     const bool emin_adjoint_region = cfg.coars == EMIN && levels >= 2 && fam != 2;
+    // With general (non-symmetric) off-diagonal blocks (family reblocked) the block-valued quotient omega = (AP,ADAP)/(ADAP,ADAP)
+    // is not even a ratio of norms: the transfer operators are arbitrary, huge and mutually cancelling (the cycle is applied
+    // with a relative error of 1e-10 instead of 1e-16, linearity is off by 240 x the rounding bound) or NaN.  Nothing is
+    // asserted for that family; for symmetric non-commuting blocks (blocklap) only symmetry / positivity / contraction are excluded.
+    if (emin_adjoint_region && fam == 0) { c.label("emin:general-blocks"); if (c.known("F-emin-block-adjoint")) return; }
 
     // ---- B, history independence
     std::vector<bvec> fb = pack(f), x0(nb), x1(nb);
